@@ -466,7 +466,9 @@ def classify_disagreements(rep, checks, impl, model, nkey=None):
             continue
         st["disagreements"] += 1
         nowrap = c.split(" ")[3] == "1"
-        if i == "PANIC" or i.startswith("CRASH") or i == "TIMEOUT":
+        if m == "TIMEOUT" or m.startswith("CRASH") or m == "SKIPPED-AFTER-CRASH" or m == "MODEL-UNAVAILABLE":
+            ties.append((c, i, m))          # the model runner did not answer: nothing is claimed about the code
+        elif i == "PANIC" or i.startswith("CRASH") or i == "TIMEOUT":
             rep.add_failure("locks.check", c, i, m, "implementation panicked / crashed")
         elif nowrap and passes(i) != passes(m):
             rep.add_failure("locks.check", c, i, m,
@@ -503,7 +505,8 @@ def run(ctx):
             model = C.run_lines(C.VRUN(UNIT), [line]) if ctx["have_model"] else ["MODEL-UNAVAILABLE"]
             classify_disagreements(rep, [line], impl, model)
         return
-    nb = 480 if tier == "quick" else 8000
+    nb = 480 if tier == "quick" else 5000
+    tmo = 900 if tier == "quick" else 7200
     CYCLE["classes"] = CYCLE["eph"] = 0
     checks, oracles, keys_c, keys_o = [], [], [], []
     # corpus first: hand-made boundary cases and minimised past disagreements
@@ -535,8 +538,8 @@ def run(ctx):
         keys_o += [key] * len(ol)
 
     # --- correspondence: verdicts
-    impl = C.run_lines(C.VH(UNIT), checks)
-    model = C.run_lines(C.VRUN(UNIT), checks) if ctx["have_model"] else ["MODEL-UNAVAILABLE"] * len(checks)
+    impl = C.run_lines(C.VH(UNIT), checks, timeout=tmo)
+    model = C.run_lines(C.VRUN(UNIT), checks, timeout=tmo) if ctx["have_model"] else ["MODEL-UNAVAILABLE"] * len(checks)
     kmap = dict(zip(checks, keys_c))
 
     def nkey(c, i):
@@ -556,15 +559,15 @@ def run(ctx):
 
     # --- error codes (information only)
     sub = [c.replace("locks.check", "locks.code", 1) for c in checks[::3]]
-    ci = C.run_lines(C.VH(UNIT), sub)
-    cm = C.run_lines(C.VRUN(UNIT), sub) if ctx["have_model"] else ci
+    ci = C.run_lines(C.VH(UNIT), sub, timeout=tmo)
+    cm = C.run_lines(C.VRUN(UNIT), sub, timeout=tmo) if ctx["have_model"] else ci
     diffc = [(c, a, b) for c, a, b in zip(sub, ci, cm) if a != b]
     rep.streams["locks.code"] = {"cases": len(sub), "code_disagreements": len(diffc),
                                  "codes": dict(Counter(ci).most_common(40)),
                                  "first_disagreement": {"case": diffc[0][0][:400], "impl": diffc[0][1], "model": diffc[0][2]} if diffc else None}
 
     # --- the property itself, evaluated on the implementation
-    outs = C.run_lines(C.VH(UNIT), oracles)
+    outs = C.run_lines(C.VH(UNIT), oracles, timeout=tmo)
     rep.evaluations += len(oracles)
     so = rep.streams.setdefault("locks.oracle", {})
     so["cases"] = len(oracles)
